@@ -4,6 +4,10 @@ import HtpModel.Lemmas.Ring
 import HtpModel.Lemmas.TableSim
 import HtpModel.Lemmas.Builder
 import HtpModel.Lemmas.Prims
+import HtpModel.Lemmas.CFunsCmp
+import HtpModel.Lemmas.CFunsNocase
+import HtpModel.Lemmas.CFunsSearch
+import HtpModel.Lemmas.CFunsLine
 
 namespace Htp.C17
 open Htp.Ring
@@ -325,5 +329,82 @@ example : (parseChunkedLength (b!"\t1A;ext")).1 = 26 := by decide
 example : parseContentLength (b!" 42; x") = 42 := by decide
 
 end
+
+/-! ### The code itself: leaf functions translated from the current /repo sources
+
+`HtpModel/Gen/CFuns.lean` is written on every run by the control-flow translator `extract/ctrans.py` from clang's typed AST of the current
+sources; the terms live in the small C semantics of `HtpModel/CSem.lean` (stores wrap to the C type, a read outside the array is undefined,
+loops take fuel). The theorems below say that the TRANSLATED function - not a hand-written copy of it - returns the model's value for
+every input, that every read stays inside the arrays handed in, and that the loops finish within the stated number of turns. Together with
+the theorems above about the model functions they are statements about the code as it is now; a change to one of these C functions
+changes the generated term and the proof stops checking. -/
+section Translated
+open Htp.Gen.C Htp.CSem Htp.Bstr
+
+/-- every function on the translator's list is inside the translated subset on this run -/
+theorem C17_translator_complete : Htp.Gen.C.untranslated = [] := by decide
+
+/-- **C17 (bstr_util_cmp_mem, translated code)**: for all byte strings below 2^63 bytes the C function, as translated, returns the model's
+    three-way result, with every read inside the two arrays and the loop finished within len1 + 1 turns -/
+theorem C17_translated_cmp_mem (d1 d2 : Bytes) (h1 : d1.length < 9223372036854775808) (h2 : d2.length < 9223372036854775808)
+    (fuel : Nat) (hf : d1.length < fuel) :
+    (bstr_util_cmp_mem fuel d1 d2 d1.length d2.length).map (·.1) = some (cmpMem d1 d2) :=
+  Htp.CFuns.bstr_util_cmp_mem_eq d1 d2 h1 h2 fuel hf
+
+/-- ... hence the translated code returns 0 exactly for equal strings (with `C17_cmp_eq_zero_iff`) -/
+theorem C17_translated_cmp_mem_zero_iff (d1 d2 : Bytes) (h1 : d1.length < 9223372036854775808) (h2 : d2.length < 9223372036854775808) :
+    (bstr_util_cmp_mem (d1.length + 1) d1 d2 d1.length d2.length).map (·.1) = some 0 ↔ d1 = d2 := by
+  rw [C17_translated_cmp_mem d1 d2 h1 h2 _ (Nat.lt_succ_self _)]
+  constructor
+  · intro h; exact (C17_cmp_eq_zero_iff d1 d2).mp (Option.some.inj h)
+  · intro h; rw [(C17_cmp_eq_zero_iff d1 d2).mpr h]
+
+/-- **C17 (bstr_util_cmp_mem_nocase, translated code)** -/
+theorem C17_translated_cmp_mem_nocase (d1 d2 : Bytes) (h1 : d1.length < 9223372036854775808) (h2 : d2.length < 9223372036854775808)
+    (fuel : Nat) (hf : d1.length < fuel) :
+    (bstr_util_cmp_mem_nocase fuel d1 d2 d1.length d2.length).map (·.1) = some (cmpMemNocase d1 d2) :=
+  Htp.CFuns.bstr_util_cmp_mem_nocase_eq d1 d2 h1 h2 fuel hf
+
+/-- **C17 (bstr_util_mem_index_of_mem, translated code)**: the nested search loop returns the first offset at which the needle occurs, -1 when
+    there is none (`C17_index_of_some` / `C17_index_of_none` say what the model's value is); the haystack bound is what makes the C
+    conversion `(int) i` exact -/
+theorem C17_translated_index_of_mem (hay needle : Bytes) (h1 : hay.length ≤ 2147483648) (fuel : Nat) (hf : hay.length < fuel) :
+    (bstr_util_mem_index_of_mem fuel hay needle hay.length needle.length).map (·.1)
+      = some (match indexOfMem hay needle with | some i => (i : Int) | none => -1) :=
+  Htp.CFuns.bstr_util_mem_index_of_mem_eq hay needle h1 fuel hf
+
+/-- **C17 (character predicates, translated code)**: htp_is_lws / htp_is_text / htp_is_folding_char as translated return, on every byte, what the
+    regenerated (and pinned) class tables say - the tables are tabulated by RUNNING the compiled functions, the terms are translated from their
+    SOURCE: two independent routes from the code to the model that must meet. htp_is_folding_char(-1), the 'no byte' case, is 0. -/
+theorem C17_translated_char_predicates (fuel : Nat) (c : UInt8) :
+    (htp_is_lws fuel c.toNat).map (·.1) = some (b2i (Htp.Gen.isLws c)) ∧
+    (htp_is_text fuel c.toNat).map (·.1) = some (b2i (Htp.Gen.isText c)) ∧
+    (htp_is_folding_char fuel c.toNat).map (·.1) = some (b2i (Htp.Gen.isFoldingChar c)) ∧
+    (htp_is_folding_char fuel (-1)).map (·.1) = some (b2i Htp.Gen.isFoldingCharNeg1) :=
+  ⟨Htp.CFuns.htp_is_lws_eq fuel c, Htp.CFuns.htp_is_text_eq fuel c, Htp.CFuns.htp_is_folding_char_eq fuel c,
+   Htp.CFuns.htp_is_folding_char_neg1 fuel⟩
+
+/-- **C17 (line predicates, translated code)**: htp_is_line_empty for every buffer (the lazy && / || keep both reads inside it), and
+    htp_is_line_whitespace for every buffer below 2^63 bytes within len + 1 loop turns, return the connection model's predicates -/
+theorem C17_translated_line_predicates (d : Bytes) (h1 : d.length < 9223372036854775808) (fuel : Nat) (hf : d.length < fuel) :
+    (htp_is_line_empty fuel d d.length).map (·.1) = some (b2i (Htp.Parse.isLineEmpty d)) ∧
+    (htp_is_line_whitespace fuel d d.length).map (·.1) = some (b2i (Htp.Parse.isLineWhitespace d)) :=
+  ⟨Htp.CFuns.htp_is_line_empty_eq fuel d, Htp.CFuns.htp_is_line_whitespace_eq d h1 fuel hf⟩
+
+/-- **C17 (htp_chomp, translated code)**: the loop that strips line terminators from the END of a buffer (`data[*len - 1]`, several exits inside
+    the loop) returns the model's count and leaves `*len` at the length of the model's result, which is a prefix of the input: the pair
+    determines the result. Every read is inside the buffer (in particular `*len - 1` never wraps), at most len + 1 turns. -/
+theorem C17_translated_chomp (d : Bytes) (h1 : d.length < 9223372036854775808) (fuel : Nat) (hf : d.length < fuel) :
+    (htp_chomp fuel d d.length).map (fun r => (r.1, r.2.len)) = some (((Htp.Parse.chomp d).2 : Int), ((Htp.Parse.chomp d).1.length : Int)) ∧
+    (Htp.Parse.chomp d).1 = d.take (Htp.Parse.chomp d).1.length :=
+  ⟨Htp.CFuns.htp_chomp_eq d h1 fuel hf, Htp.CFuns.chomp_prefix d⟩
+
+example : (htp_chomp 7 (b!"abc\r\n\n") 6).map (fun r => (r.1, r.2.len)) = some (2, 3) := by decide +kernel
+
+/-- non-vacuity: the translated terms run -/
+example : (bstr_util_cmp_mem 3 (b!"ab") (b!"ac") 2 2).map (·.1) = some (-1) := by decide +kernel
+example : (bstr_util_mem_index_of_mem 6 (b!"hello") (b!"llo") 5 3).map (·.1) = some 2 := by decide +kernel
+
+end Translated
 
 end Htp.C17
